@@ -24,9 +24,9 @@ def run(chk):
     n = common.tier_n(chk.tier, 240, 5000)
     items, owners = [], []
     n_burst = common.tier_n(chk.tier, 1, 3)
-    for i in range(n + n_burst):
+    for i in range(n + 2 * n_burst):
         model = i % 2 == 0 and i < n
-        sc = rd.gen_scenario(rnd, model=model) if i < n else rd.gen_burst(rnd)
+        sc = rd.gen_scenario(rnd, model=model) if i < n else (rd.gen_burst(rnd) if (i - n) % 2 == 0 else rd.gen_stale(rnd))
         log, outcome = rd.run_scenario(sc)
         special = bool(sc["jobs"]) or any(w > t or (k > 0 and w < arr[k - 1][1])
                                          for arr in sc["sources"] for k, (t, w, e, d) in enumerate(arr))
